@@ -391,3 +391,25 @@ def run_case(ctx, i, rng):
     if len(types) >= 3 and junk:
         ctx.nontrivial(gen.fingerprint({"text": text}))
     ctx.sample({"first_lines": [t for t, _ in lines[:6]], "n_lines": len(lines), "junk_lines": len(junk), "with_custom_types": with_custom}, cap=2)
+
+
+def _dataset_case(name):
+    def f(ctx):
+        from .. import datasets
+
+        if not datasets.available(name):
+            ctx.skip("dataset file missing: " + name)
+            return
+        with open(datasets.path(name)) as fh:
+            lines = [(ln, "line") for ln in fh.readlines()]
+        verts, edges, params, junk = expected_from_text(lines, set())
+        g, recs = load_with_log(M.Graph.from_g2o, datasets.path(name))
+        compare_loaded(ctx, g, verts, edges, params, {"with_custom_types": False, "where": "dataset:" + name}, {"dataset": name})
+        warned = [r.getMessage() for r in recs if r.levelno >= logging.WARNING]
+        ctx.check("warnings-match-junk-lines", len(warned) == len(junk), {"where": "dataset:" + name}, {"n": [len(junk), len(warned)]}, {"dataset": name})
+        ctx.count("dataset:" + name)
+        ctx.nontrivial("dataset-" + name)
+    return f
+
+
+DATASET_CASES = [_dataset_case("intel"), _dataset_case("garage")]
